@@ -313,7 +313,8 @@ def step (s : State) (te : TEv) : R State :=
           let eligible := x.cfg.takeover && decide (x.cfg.prio > prio) && o != i && decide (10 * L ≤ x.cfg.hb)
           if x.known = some o ∧ eligible then
             pure (s.set { x with owed := match x.owed with | some d => some d | none => some (t + 3 * L) })
-          else pure (s.set { x with known := some o })
+          else if eligible then pure (s.set { x with known := some o })
+          else pure (s.set { x with known := some o, owed := none })   -- the record has changed hands: nobody to preempt
       | _, _ => pure s
     | _ => pure s
 
